@@ -32,3 +32,23 @@ Proof.
   - intros (c & <- & Hc). exists c; split; auto. now apply (object_classes_exact _ _ _ _ Eo).
   - intros (c & <- & Hc). exists c; split; auto. now apply (object_classes_exact _ _ _ _ Eo).
 Qed.
+
+(* the schema-parse error is raised for a class that reaches itself and for nothing else *)
+Lemma emit_not_refusal : forall fuel d acc, emit fuel d acc <> OSchemaParseError.
+Proof.
+  induction fuel as [|f IH]; intros d acc; simpl.
+  - destruct d; discriminate.
+  - destruct (first_free d); [apply IH|destruct d; discriminate].
+Qed.
+
+Theorem orderer_refusal_exact paths G roots ocs ps :
+  get_object_classes paths G roots = Some ocs -> dep_pairs paths G ocs = Some ps ->
+  (forall a b, In a ocs -> In b ocs -> class_name G a = class_name G b -> a = b) ->
+  (orderer paths G roots = OSchemaParseError <-> exists c, In c ocs /\ reach paths G c c).
+Proof.
+  intros Ho Hp Hu. rewrite <- (has_cycle_reach _ _ _ _ _ Ho Hp Hu).
+  unfold orderer; rewrite Ho, Hp. unfold order_names.
+  destruct (has_cycle (dict_of_pairs ps)); split; auto; intros H.
+  - now apply emit_not_refusal in H.
+  - discriminate H.
+Qed.
